@@ -151,6 +151,16 @@ package xmlenc
 //@ ensures[C10] reg_oaep_sha512: registered(OAEP_SHA512().algorithm)
 //@ ensures[C10] keysizes: AES128CBC.(CBC).keySize == 16 && AES192CBC.(CBC).keySize == 24 && AES256CBC.(CBC).keySize == 32 &&
 //@    AES128GCM.(GCM).keySize == 16 && TripleDES.(CBC).keySize == 24
+//@ -- the cipher table: each W3C identifier is paired with its block cipher constructor and key size
+//@ import aes "crypto/aes"
+//@ import des "crypto/des"
+//@ go func sameCipherFunc(a, b func([]byte) (cipher.Block, error)) bool
+//@ ensures[C10] cipher_table:
+//@    AES128CBC.(CBC).algorithm == "http://www.w3.org/2001/04/xmlenc#aes128-cbc" && sameCipherFunc(AES128CBC.(CBC).cipher, aes.NewCipher) &&
+//@    AES192CBC.(CBC).algorithm == "http://www.w3.org/2001/04/xmlenc#aes192-cbc" && sameCipherFunc(AES192CBC.(CBC).cipher, aes.NewCipher) &&
+//@    AES256CBC.(CBC).algorithm == "http://www.w3.org/2001/04/xmlenc#aes256-cbc" && sameCipherFunc(AES256CBC.(CBC).cipher, aes.NewCipher) &&
+//@    TripleDES.(CBC).algorithm == "http://www.w3.org/2001/04/xmlenc#tripledes-cbc" && sameCipherFunc(TripleDES.(CBC).cipher, des.NewTripleDESCipher) &&
+//@    AES128GCM.(GCM).algorithm == "http://www.w3.org/2009/xmlenc11#aes128-gcm" && sameCipherFunc(AES128GCM.(GCM).cipher, aes.NewCipher)
 //@ -- the digest table: each identifier is paired with the hash it names (interoperation: the peer picks the hash by identifier)
 //@ import sha1 "crypto/sha1"
 //@ import sha256 "crypto/sha256"
